@@ -53,6 +53,7 @@ Consume(e) ==
 \* the recorded post-state (every slot) and, for queries, the recorded result
 Matches(e) ==
   /\ "post" \in DOMAIN e => \A s \in 1..Len(e.post) : sk'[s] = e.post[s]   \* (parallel_add runs record only the final state)
+  /\ "posts" \in DOMAIN e => \A i \in 1..Len(e.posts) : sk'[e.posts[i].s] = e.posts[i].st   \* (repository-test traces record the touched slots)
   /\ e.ev = "query" => op'.out = e.out
 
 TStep ==
@@ -70,4 +71,10 @@ TNext == TStep \/ TDone
 TSpec == TInit /\ [][TNext]_tvars
 
 TraceOK == ok
+\* the two quadratic invariants at every 64th step and at the end (traces of the repository's own
+\* tests have tens of thousands of events over 25 keys)
+Checkpoint == l % 64 = 1 \/ l > Len(Events)
+UpperSparse == Checkpoint => Upper
+UpperCellSparse == Checkpoint => UpperCell
+MergeAlgebraSparse == Checkpoint => MergeAlgebra
 =============================================================================
